@@ -41,7 +41,8 @@ impl String_ {
         // do the parsing by hand.
 
         let mut s = s.as_slice();
-        while !s.is_empty() && s[0].is_ascii_whitespace() {
+        // Same set as the C isspace used by strtol, which includes the vertical tab.
+        while !s.is_empty() && matches!(s[0], b' ' | b'\t'..=b'\r') {
             s = &s[1..];
         }
 
@@ -80,6 +81,9 @@ impl String_ {
             } else {
                 base = 10;
             }
+        } else if base == 16 && (s.starts_with(b"0x") || s.starts_with(b"0X")) {
+            // strtol also accepts the prefix when the base is explicitly 16.
+            s = &s[2..];
         }
 
         if s.is_empty() {
